@@ -200,6 +200,8 @@ type State struct {
 	harness string
 	opts    HarnessOpts
 	fmtLog  []fmtRec
+	curWorker *Worker // the worker currently executing this state
+	mapRev  int // global map-order choice (0 undecided, 1 insertion, 2 reverse)
 }
 
 type ObsRec struct {
